@@ -631,3 +631,9 @@ package meta
 //@   reads_all pi
 //@ func PtOwner.marshal
 //@   reads_all po
+
+// Restore side of the whole catalogue: every field is assigned on EVERY path through Unmarshal (an early return
+// must not skip a collection), except the ones listed.
+//@ func (*Data).Unmarshal
+//@   writes_all_paths Data except ReplicaGroups(restored only if the snapshot has replica groups; absent otherwise), ExpandShardsEnable(configuration, not persisted), opsMapMu(lock), OpsMap(incremental-sync bookkeeping), OpsMapMinIndex(incremental-sync bookkeeping), OpsMapMaxIndex(incremental-sync bookkeeping), OpsToMarshalIndex(incremental-sync bookkeeping), SQLite(handle of the local file store, not catalogue state)
+
